@@ -33,6 +33,9 @@ Proof.
   - intros r p H. destruct r; cbn in H; destruct H.
   - intros t sv r s H. discriminate.
   - intros d t p H. destruct d; discriminate.
+  - intros t sv H. discriminate.
+  - intros (_ & Hhp & _) r. left. destruct r; cbn; lia.
+  - intros _ p. reflexivity.
 Qed.
 
 Lemma init_ok c ths : Conc.cfg_ok view (Inv c) (init_cfg c ths).
@@ -117,4 +120,87 @@ Proof.
   - exfalso. apply (hp_no_dispose_while_guarded _ _ _ H d t p s Hd Hs Hro Hp r j).
     eapply held_weaken; [exact Hle|exact Hh].
   - eapply retired_before_mono; [|exact Hr]. lia.
+Qed.
+
+(** ** the retired arrays never overflow under the documented preconditions:
+    at most P records in thread_list_ (at most P threads ever attached at the same time is NOT enough in general,
+    see the report: help_scan can hold a second record; the hypothesis is on the list itself), capacity R > H*P,
+    no object retired twice.  [ovf_cond] is evaluated in the configuration reached (the list only grows). *)
+Theorem hp_no_overflow c ths cf :
+  Conc.reach (init_cfg c ths) cf ->
+  List.length (g_list (Conc.shared cf)) <= cP c -> cH c * cP c < cR c -> retire_once (Conc.trace cf) ->
+  forall p, cnt "overflow" p (Conc.trace cf) = 0%Z.
+Proof.
+  intros H H1 H2 H3. destruct (reach_inv _ _ _ H) as (a & HI). apply (i_noovf _ _ _ _ HI). repeat split; assumption.
+Qed.
+
+(** ** second sentence: reduction of the full statement to three facts about the client's guard.
+    If, for the guard in question, (a) slot (r,j) has held [p] from some step [g0] up to the step [v] at which
+    protect returned, (b) [p] had not been passed to retire() before [g0], (c) nothing is stored into slot (r,j)
+    between [v] and a disposer call on [p] at [d] -- then that disposer call cannot exist. *)
+Definition slot_write (r j : nat) (e : ev) : bool :=
+  match e with
+  | EvCli n [a; b; _] => (String.eqb n "g_slot" && (Z.eqb a (zn r) && Z.eqb b (zn j)))%bool
+  | _ => false
+  end.
+
+Lemma slot_upd_nowrite r j e cur : slot_write r j e = false -> slot_upd r j e cur = cur.
+Proof.
+  destruct e as [k o b|n args]; [reflexivity|]. cbn. destruct args as [|x [|y [|z [|w rest]]]]; try reflexivity.
+  intros ->. reflexivity.
+Qed.
+
+Lemma slot_at_firstn_S (tr : trace) i te r j :
+  nth_error tr i = Some te -> slot_at (firstn (S i) tr) r j = slot_upd r j (snd te) (slot_at (firstn i tr) r j).
+Proof.
+  intros H. assert (E : firstn (S i) tr = firstn i tr ++ [te]).
+  { revert tr H. induction i as [|i IH]; intros [|x tr] H; cbn in *; try discriminate.
+    - inversion H; reflexivity.
+    - f_equal. now apply IH. }
+  rewrite E. apply slot_at_snoc.
+Qed.
+
+Lemma slot_at_nowrites (tr : trace) r j n : forall k,
+  (forall i te, n <= i < n + k -> nth_error tr i = Some te -> slot_write r j (snd te) = false) ->
+  slot_at (firstn (n + k) tr) r j = slot_at (firstn n tr) r j.
+Proof.
+  induction k as [|k IH]; intros H; [now rewrite Nat.add_0_r|].
+  rewrite Nat.add_succ_r. destruct (nth_error tr (n + k)) as [te|] eqn:E.
+  - rewrite (slot_at_firstn_S tr (n + k) te r j E). rewrite slot_upd_nowrite by (eapply H; [|exact E]; lia).
+    apply IH. intros i te' Hi. apply H. lia.
+  - apply nth_error_None in E. rewrite !firstn_all2 by lia.
+    rewrite <- (firstn_all2 tr (n:=n + k)) at 1 by lia. apply IH. intros i te' Hi. apply H. lia.
+Qed.
+
+Lemma held_extend (tr : trace) g0 r j p n m :
+  held (firstn n tr) g0 r j p -> g0 <= n -> n <= m -> n <= List.length tr ->
+  (forall i te, n <= i < m -> nth_error tr i = Some te -> slot_write r j (snd te) = false) ->
+  held (firstn m tr) g0 r j p.
+Proof.
+  intros Hh Hg Hnm Hn Hw i Hi. rewrite firstn_length in Hi.
+  rewrite firstn_firstn. replace (Nat.min i m) with i by lia.
+  destruct (Nat.le_gt_cases i n) as [Hle|Hgt].
+  - specialize (Hh i). rewrite firstn_length, firstn_firstn in Hh. replace (Nat.min i n) with i in Hh by lia.
+    apply Hh. lia.
+  - replace i with (n + (i - n)) by lia. rewrite slot_at_nowrites.
+    + specialize (Hh n). rewrite firstn_length, firstn_firstn in Hh. replace (Nat.min n n) with n in Hh by lia.
+      apply Hh. lia.
+    + intros i' te Hi' E. eapply Hw; [|exact E]. lia.
+Qed.
+
+Theorem hp_guarded_ptr_live_from_slot_facts c ths cf :
+  Conc.reach (init_cfg c ths) cf ->
+  forall v d t p g0 r j,
+    v < d -> p <> 0%Z ->
+    (cInplace c = true -> retire_once (firstn d (Conc.trace cf))) ->
+    nth_error (Conc.trace cf) d = Some (t, ev_dispose p) ->
+    (* (a) *) g0 <= S v -> held (firstn (S v) (Conc.trace cf)) g0 r j p ->
+    (* (b) *) ~ retired_before (Conc.trace cf) g0 p ->
+    (* (c) *) (forall i te, S v <= i < S d -> nth_error (Conc.trace cf) i = Some te -> slot_write r j (snd te) = false) ->
+    False.
+Proof.
+  intros H v d t p g0 r j Hvd Hp Hro Hd Hg Hheld Hnr Hnw.
+  apply Hnr. eapply (hp_guard_set_after_retire c ths cf H d t p g0 r j Hd Hp Hro).
+  eapply held_extend; [exact Hheld|exact Hg|lia| |exact Hnw].
+  assert (d < List.length (Conc.trace cf)) by (apply nth_error_Some; congruence). lia.
 Qed.
